@@ -8,6 +8,7 @@ import (
 	"verif/tools/load"
 	"verif/tools/model"
 	"verif/tools/pa"
+	"verif/tools/policyx"
 )
 
 func init() { register("C08", "other", runC08) }
@@ -155,7 +156,7 @@ func runC08(c *Ctx) {
 	R.Rule("C08.R2", "flag/counter pairing: the only joint assignments of (skip flag, skip depth) are: loop entry (false,0); StartTag arm, or SelfClosingTag arm for a non-void element, (true, depth+1) on an edge whose path condition implies the element is in the skip set and admitted by no element table; EndTag arm (false, depth-1) under skip-set ∧ not admitted ∧ patterns exhausted ∧ depth-1==0; EndTag arm (unchanged, depth-1) under skip-set ∧ not admitted. Any other assignment of either variable is a violation")
 	R.Rule("C08.R2c", "completeness: every StartTag path — and every SelfClosingTag path for a non-void element, whose slash browsers and the tokenizer ignore — on which the element is in the skip set, admitted by no element table and past the script/style gate leaves the arm with the skip flag set")
 	R.Rule("C08.R4", "increments are matchable: the (true, depth+1) site is reached only for elements that can have an end tag (not under a void-element test)")
-	R.Rule("C08.R5", "the skip set is edited only by builder methods (SkipElementsContent / AllowElementsContent / defaults)")
+	R.Rule("C08.R5", "the skip set is edited only by builder methods (SkipElementsContent / AllowElementsContent / defaults), which store and delete keys that are strings.ToLower(name) and nothing else")
 	R.Assume(TrustGo, TrustTokenizer, "the end-to-end marker statement over all nestings depends on the counter's run-time value; only its transitions and guards are decided here")
 	sc := newSC(c, "C08.R1")
 	if sc == nil {
@@ -352,8 +353,14 @@ func runC08(c *Ctx) {
 		R.Role("C08.R2c", arm+" back edges", n, 2)
 	}
 
+	// R4 (table side): every void element — standard or obsolete — that NewPolicy puts into the default skip-content
+	// set must be in the void table the guards consult, or the region it opens is never closed
+	c08VoidCoverage(sc, "C08.R4")
+
 	// R5
 	tableWriters(c, "C08.R5", []string{"skipSet"})
+	// the keys the builders store are exactly strings.ToLower(name): the token loop looks names up as delivered
+	namesLowered(c, "C08.R5", map[string]bool{"(*Policy).SkipElementsContent": true, "(*Policy).AllowElementsContent": true}, 2)
 }
 
 func siteVal(h *ssa.Phi, v ssa.Value) string {
@@ -402,4 +409,48 @@ func (sc *SC) voidTestAtoms() []int {
 		}
 	}
 	return out
+}
+
+// c08VoidCoverage: default skip-content elements that are void (incl. obsolete void elements) are keys of the void
+// table tested by the skip guards.
+func c08VoidCoverage(sc *SC, rule string) {
+	c, R := sc.c, sc.c.R
+	var spec struct {
+		Void     []string `json:"void"`
+		Obsolete []string `json:"obsolete_void"`
+	}
+	if err := c.Spec("void_elements.json", &spec); err != nil {
+		R.Unknown(rule, "void-spec", "spec/void_elements.json", "", err.Error())
+		return
+	}
+	np := c.P.Func(load.ModPath, "NewPolicy")
+	if np == nil {
+		R.Unknown(rule, "void-coverage", "NewPolicy", "", "not found")
+		return
+	}
+	tbl, err := policyx.New(c.P).EvalConstructor(np)
+	if err != nil {
+		R.Unknown(rule, "void-coverage", "NewPolicy", "", "default skip set cannot be extracted: "+err.Error())
+		return
+	}
+	// the void table: the global map behind the void-test atoms
+	var table *ssa.Global
+	for _, a := range sc.voidTestAtoms() {
+		at := sc.A.Atoms[a]
+		if u, ok := at.Resolve(at.X).(*ssa.UnOp); ok {
+			if g, ok := u.X.(*ssa.Global); ok {
+				table = g
+			}
+		}
+	}
+	n := 0
+	for _, e := range append(append([]string{}, spec.Void...), spec.Obsolete...) {
+		if !tbl.Skip[e] {
+			continue
+		}
+		n++
+		ok := table != nil && globalMapHasKeys(c, table, []string{e})
+		R.Check(ok, rule, "void-coverage:"+e, "void table entry for <"+e+"> (in the default skip-content set)", c.P.Pos(np.Pos()), "listed in the void table", "<"+e+"> never has an end tag but is in the default skip-content set and missing from the void table: the skipped region it opens is never closed and the rest of the document is dropped")
+	}
+	R.Analysed["void_elements_in_default_skip_set"] = n
 }
